@@ -9,16 +9,20 @@ model : lean PysphVerif.Model.Domain, run at Rat on dyadic inputs (exact
 oracle: the property statement evaluated with exact rationals, independently
         of the model, on the arrays before / after every update
 """
+import gc
 import itertools
 import json
+import os
 import random
 import sys
 from collections import Counter
 from fractions import Fraction as Fr
 
-import numpy as np
+os.environ.setdefault('OMP_NUM_THREADS', '1')
 
-import hcommon as H
+import numpy as np  # noqa: E402
+
+import hcommon as H  # noqa: E402
 
 H.assert_scratch_import()
 from pysph.base.utils import get_particle_array  # noqa: E402
@@ -359,6 +363,8 @@ def oracle_round(case, rnd, cols, defaults, R, rno):
         for i in range(narr):
             have = set(tuple(F(v) for v in vals[:3]) for t, vals in rnd['after'][i] if t == GHOST)
             for t, q in after_reals[i]:
+                if not all(lo[k] <= q[k] <= hi[k] for k in range(3) if per[k]):
+                    continue        # left by a period or more: not wrapped, not stated
                 for abc in itertools.product(*rng):
                     if abc == (0, 0, 0):
                         continue
@@ -450,7 +456,11 @@ def gen_case(rng, big=False, mode='Q', force=None):
         box += [lo, lo + Lk]
         Ls.append(Lk)
     narr = rng.choice([1, 1, 2, 2, 3])
-    via_nnps = rng.random() < 0.3
+    # NNPS.update_domain() is `self.domain.update()`; the constructor path is
+    # exercised by the corpus only (constructing many LinkedListNNPS objects in
+    # one process next to bare DomainManagers crashed the interpreter in the
+    # cyclic garbage collector -- outside this property, see the report)
+    via_nnps = False
     arrays = []
     tiny = 2.0 ** -10
     for ai in range(narr):
@@ -587,8 +597,8 @@ def corpus():
            [0.75, 0.625, 0.75], [0.9375, 0.875, 0.6875]]
     out.append(dict(base, dim=3, kind='mix', box=[0.0, 1.0, 0.0, 1.0, 0.0, 1.0], per=[True, False, False],
                     mir=[False, True, True], arrays=[arr('a0', pts)]))
-    # corner images and the <= tie on both faces, two rounds
-    out.append(dict(base, kind='per', per=[True, True, False], mir=[False] * 3, nl=1.0,
+    # corner images and the <= tie on both faces, two rounds, through LinkedListNNPS
+    out.append(dict(base, kind='per', via_nnps=True, per=[True, True, False], mir=[False] * 3, nl=1.0,
                     arrays=[arr('a0', [[0.0, 0.0, 0.0], [1 / 8, 7 / 8, 0.0], [1 / 8 + 2.0 ** -10, 0.5, 0.0],
                                        [1.0, 1.0, 0.0], [-0.25, 1.25, 0.0]])],
                     moves=[[{'d': [[0.5, 0.5, 0.0]] * 5}]]))
@@ -602,6 +612,7 @@ def check_cases(cases, R, sample_from=0):
     lines = []
     for c in cases:
         rounds, cols, defaults = run_impl(c)
+        gc.collect()
         impls.append((rounds, cols, defaults))
         for rnd in rounds:
             lines.append(model_line(c, rnd, cols, defaults))
@@ -671,7 +682,7 @@ def main():
     check_cases([gen_case(rng, big=not quick, mode='F') for _ in range(nf)], R, sample_from=1)
     if a.broken or R.d['disagreements']:
         rng2 = random.Random(a.seed + 4242)
-        extra = 3000
+        extra = 600 if quick else 3000
         check_cases([gen_case(rng2, big=True, mode='Q',
                               force=rng2.choice(['per', 'mir', 'mix'])) for _ in range(extra)], R)
         R.d['search'] = {'extra_cases': extra, 'found': len(R.d['property_failures'])}
